@@ -141,6 +141,8 @@ def run(O, P):
         cls = None
         if "call-apply-nonstatic-path" in classes:
             cls = "call-apply-nonstatic-path"
+        elif "optional-call-through-chain" in classes:
+            cls = "optional-call-through-chain"
         elif any(k == "crossed" for k, _ in (m.get("out_hygiene") or [])):
             cls = "temps-cross-function-boundary"
         elif "sum-operand-omitted" in (m.get("out_shapes") or []):
